@@ -53,7 +53,12 @@ def theorems_of(pid):
 def lean_stage(pid, thorough):
     """build + audit.  returns dict(ok, obligations, discharged, log, broken=[names])"""
     res = {"ok": True, "obligations": 0, "discharged": 0, "log": "", "broken": [], "axioms": {}}
-    rc, out = sh([sys.executable, os.path.join(VERIF, "tools", "extract_tables.py")], cwd=VERIF)
+    # VERIF_SKIP_EXTRACT=1 (sanity sweeps over many modified trees running next to regular checks): leave the generated tables as
+    # the last regular run wrote them, so that the sweep cannot disturb a check that runs at the same time
+    if os.environ.get("VERIF_SKIP_EXTRACT") == "1":
+        rc, out = 0, ""
+    else:
+        rc, out = sh([sys.executable, os.path.join(VERIF, "tools", "extract_tables.py")], cwd=VERIF)
     if rc != 0:
         res["ok"] = False
         res["broken"].append("table-extraction")
